@@ -204,10 +204,13 @@ class Interp:
         self.builtins = models.builtins(self)
         self.trace_calls = []
         self.mutlog = []
+        self.ext_calls = []
 
     def set_ctx(self, ctx):
         self.ctx = ctx
         self.ops.ctx = ctx
+        self.mutlog = []
+        self.ext_calls = []
 
     # ------------------------------------------------------------ modules
     def module_path(self, name):
